@@ -1,6 +1,8 @@
 //! Construction side (cargo feature `builder`): every public constructor (C07), the two
 //! builders (C06 / C12), new_boxed / clone_dyn with allocator events (C16).
 
+use super::common::{Hdr12, Hdr4};
+use super::ctor::*;
 use super::Ctx;
 use crate::alloc_track::{self, Event};
 use crate::out;
@@ -8,23 +10,17 @@ use multiboot2::*;
 use multiboot2_common::test_utils::{DummyDstTag, DummyTestHeader};
 use multiboot2_common::{clone_dyn, new_boxed, DynSizedStructure};
 use multiboot2_header as h;
-use serde_json::{json, Map, Value};
+use serde_json::{json, Value};
 use std::collections::HashMap;
-use std::mem::{align_of, size_of, size_of_val};
+use std::mem::size_of_val;
 use std::panic::{catch_unwind, AssertUnwindSafe};
 
-fn u(call: &Value, n: &str) -> u64 {
-    out::arg_u64(call, n)
-}
 
 fn s(call: &Value, n: &str) -> String {
     // text arguments travel as byte lists
     String::from_utf8(out::arg_bytes(call, n)).expect("text argument must be UTF-8")
 }
 
-fn raw<T: ?Sized>(t: &T) -> &[u8] {
-    unsafe { std::slice::from_raw_parts((t as *const T).cast::<u8>(), size_of_val(t)) }
-}
 
 /// allocator events with addresses replaced by small ids (order of first appearance)
 fn events_json(ev: &[Event], ids: &mut HashMap<usize, u64>) -> Value {
@@ -39,31 +35,7 @@ fn events_json(ev: &[Event], ids: &mut HashMap<usize, u64>) -> Value {
     )
 }
 
-/// projection of a constructed object: its raw bytes, in-memory size, address residue
-fn describe<T: ?Sized>(t: &T) -> Map<String, Value> {
-    let mut m = Map::new();
-    m.insert("bytes".into(), out::bytes(raw(t)));
-    m.insert("sv".into(), out::num(size_of_val(t)));
-    m.insert("al".into(), json!((t as *const T).cast::<u8>() as usize % 8));
-    m
-}
 
-/// as_bytes() of a sized tag at every residue mod 8 its alignment allows
-fn placements<T: MaybeDynSized + Sized>(t: &T) -> Value {
-    let mut res = Vec::new();
-    let mut buf = vec![0u64; size_of::<T>() / 8 + 4];
-    for r in [0usize, 4] {
-        if r % align_of::<T>() != 0 {
-            continue;
-        }
-        let p = unsafe { (buf.as_mut_ptr() as *mut u8).add(r) };
-        unsafe { std::ptr::copy_nonoverlapping((t as *const T).cast::<u8>(), p, size_of::<T>()) };
-        let r_t: &T = unsafe { &*(p as *const T) };
-        let ok = catch_unwind(AssertUnwindSafe(|| r_t.as_bytes().len())).is_ok();
-        res.push(json!({"res": r, "ok": ok}));
-    }
-    Value::Array(res)
-}
 
 // ---- constructors: arguments -> concrete tag ------------------------------------------------
 
@@ -76,12 +48,6 @@ fn mk_bootloader(c: &Value) -> Box<BootLoaderNameTag> {
 fn mk_module(c: &Value) -> Box<ModuleTag> {
     ModuleTag::new(u(c, "start_address") as u32, u(c, "end_address") as u32, &s(c, "text"))
 }
-fn mk_meminfo(c: &Value) -> BasicMemoryInfoTag {
-    BasicMemoryInfoTag::new(u(c, "memory_lower") as u32, u(c, "memory_upper") as u32)
-}
-fn mk_bootdev(c: &Value) -> BootdevTag {
-    BootdevTag::new(u(c, "biosdev") as u32, u(c, "slice") as u32, u(c, "part") as u32)
-}
 fn mk_mmap(c: &Value) -> Box<MemoryMapTag> {
     let areas: Vec<MemoryArea> = c["areas"]
         .as_array()
@@ -92,64 +58,6 @@ fn mk_mmap(c: &Value) -> Box<MemoryMapTag> {
         })
         .unwrap_or_default();
     MemoryMapTag::new(&areas)
-}
-fn mk_vbe(c: &Value) -> VBEInfoTag {
-    let mut ci = VBEControlInfo::default();
-    let sig = out::arg_bytes(c, "ci.signature");
-    ci.signature.copy_from_slice(&sig[..4]);
-    ci.version = u(c, "ci.version") as u16;
-    ci.oem_string_ptr = u(c, "ci.oem_string_ptr") as u32;
-    ci.capabilities = VBECapabilities::from_bits_retain(u(c, "ci.capabilities") as u32);
-    ci.mode_list_ptr = u(c, "ci.mode_list_ptr") as u32;
-    ci.total_memory = u(c, "ci.total_memory") as u16;
-    ci.oem_software_revision = u(c, "ci.oem_software_revision") as u16;
-    ci.oem_vendor_name_ptr = u(c, "ci.oem_vendor_name_ptr") as u32;
-    ci.oem_product_name_ptr = u(c, "ci.oem_product_name_ptr") as u32;
-    ci.oem_product_revision_ptr = u(c, "ci.oem_product_revision_ptr") as u32;
-    let mut mi = VBEModeInfo::default();
-    mi.mode_attributes = VBEModeAttributes::from_bits_retain(u(c, "mi.mode_attributes") as u16);
-    mi.window_a_attributes = VBEWindowAttributes::from_bits_retain(u(c, "mi.window_a_attributes") as u8);
-    mi.window_b_attributes = VBEWindowAttributes::from_bits_retain(u(c, "mi.window_b_attributes") as u8);
-    mi.window_granularity = u(c, "mi.window_granularity") as u16;
-    mi.window_size = u(c, "mi.window_size") as u16;
-    mi.window_a_segment = u(c, "mi.window_a_segment") as u16;
-    mi.window_b_segment = u(c, "mi.window_b_segment") as u16;
-    mi.window_function_ptr = u(c, "mi.window_function_ptr") as u32;
-    mi.pitch = u(c, "mi.pitch") as u16;
-    mi.resolution = (u(c, "mi.resolution.0") as u16, u(c, "mi.resolution.1") as u16);
-    mi.character_size = (u(c, "mi.character_size.0") as u8, u(c, "mi.character_size.1") as u8);
-    mi.number_of_planes = u(c, "mi.number_of_planes") as u8;
-    mi.bpp = u(c, "mi.bpp") as u8;
-    mi.number_of_banks = u(c, "mi.number_of_banks") as u8;
-    mi.memory_model = match u(c, "mi.memory_model") {
-        0 => VBEMemoryModel::Text,
-        1 => VBEMemoryModel::CGAGraphics,
-        2 => VBEMemoryModel::HerculesGraphics,
-        3 => VBEMemoryModel::Planar,
-        4 => VBEMemoryModel::PackedPixel,
-        5 => VBEMemoryModel::Unchained,
-        6 => VBEMemoryModel::DirectColor,
-        _ => VBEMemoryModel::YUV,
-    };
-    mi.bank_size = u(c, "mi.bank_size") as u8;
-    mi.number_of_image_pages = u(c, "mi.number_of_image_pages") as u8;
-    let fld = |n: &str| VBEField { size: u(c, &format!("mi.{n}.size")) as u8, position: u(c, &format!("mi.{n}.position")) as u8 };
-    mi.red_field = fld("red_field");
-    mi.green_field = fld("green_field");
-    mi.blue_field = fld("blue_field");
-    mi.reserved_field = fld("reserved_field");
-    mi.direct_color_attributes = VBEDirectColorAttributes::from_bits_retain(u(c, "mi.direct_color_attributes") as u8);
-    mi.framebuffer_base_ptr = u(c, "mi.framebuffer_base_ptr") as u32;
-    mi.offscreen_memory_offset = u(c, "mi.offscreen_memory_offset") as u32;
-    mi.offscreen_memory_size = u(c, "mi.offscreen_memory_size") as u16;
-    VBEInfoTag::new(
-        u(c, "mode") as u16,
-        u(c, "interface_segment") as u16,
-        u(c, "interface_offset") as u16,
-        u(c, "interface_length") as u16,
-        ci,
-        mi,
-    )
 }
 fn mk_framebuffer(c: &Value) -> Box<FramebufferTag> {
     let pal: Vec<FramebufferColor> = c["palette"]
@@ -175,39 +83,8 @@ fn mk_framebuffer(c: &Value) -> Box<FramebufferTag> {
 fn mk_elf(c: &Value) -> Box<ElfSectionsTag> {
     ElfSectionsTag::new(u(c, "number_of_sections") as u32, u(c, "entry_size") as u32, u(c, "shndx") as u32, &out::arg_bytes(c, "content"))
 }
-fn mk_apm(c: &Value) -> ApmTag {
-    ApmTag::new(
-        u(c, "version") as u16,
-        u(c, "cseg") as u16,
-        u(c, "offset") as u32,
-        u(c, "cset_16") as u16,
-        u(c, "dseg") as u16,
-        u(c, "flags") as u16,
-        u(c, "cseg_len") as u16,
-        u(c, "cseg_16_len") as u16,
-        u(c, "dseg_len") as u16,
-    )
-}
 fn mk_smbios(c: &Value) -> Box<SmbiosTag> {
     SmbiosTag::new(u(c, "major") as u8, u(c, "minor") as u8, &out::arg_bytes(c, "content"))
-}
-fn oem(c: &Value) -> [u8; 6] {
-    let b = out::arg_bytes(c, "oem_id");
-    [b[0], b[1], b[2], b[3], b[4], b[5]]
-}
-fn mk_rsdpv1(c: &Value) -> RsdpV1Tag {
-    RsdpV1Tag::new(u(c, "checksum") as u8, oem(c), u(c, "revision") as u8, u(c, "rsdt_address") as u32)
-}
-fn mk_rsdpv2(c: &Value) -> RsdpV2Tag {
-    RsdpV2Tag::new(
-        u(c, "checksum") as u8,
-        oem(c),
-        u(c, "revision") as u8,
-        u(c, "rsdt_address") as u32,
-        u(c, "length") as u32,
-        u(c, "xsdt_address"),
-        u(c, "ext_checksum") as u8,
-    )
 }
 fn mk_network(c: &Value) -> Box<NetworkTag> {
     NetworkTag::new(&out::arg_bytes(c, "content"))
@@ -232,34 +109,9 @@ fn mk_efi_mmap(c: &Value) -> Box<EFIMemoryMapTag> {
 fn mk_custom(c: &Value) -> Box<DynSizedStructure<TagHeader>> {
     new_boxed(TagHeader::new(TagTypeId::new(u(c, "typ") as u32), 0), &[&out::arg_bytes(c, "content")])
 }
-fn hflag(c: &Value) -> h::HeaderTagFlag {
-    if u(c, "flags") == 0 {
-        h::HeaderTagFlag::Required
-    } else {
-        h::HeaderTagFlag::Optional
-    }
-}
 fn mk_info_req(c: &Value) -> Box<h::InformationRequestHeaderTag> {
     let reqs: Vec<h::MbiTagTypeId> = c["requests"].as_array().map(|a| a.iter().map(|x| h::MbiTagTypeId::new(out::arg_u64(&json!({"v": x}), "v") as u32)).collect()).unwrap_or_default();
     h::InformationRequestHeaderTag::new(hflag(c), &reqs)
-}
-fn mk_relocatable(c: &Value) -> h::RelocatableHeaderTag {
-    let pref = match u(c, "preference") {
-        0 => h::RelocatableHeaderTagPreference::None,
-        1 => h::RelocatableHeaderTagPreference::Low,
-        _ => h::RelocatableHeaderTagPreference::High,
-    };
-    h::RelocatableHeaderTag::new(hflag(c), u(c, "min_addr") as u32, u(c, "max_addr") as u32, u(c, "align") as u32, pref)
-}
-fn mk_console(c: &Value) -> h::ConsoleHeaderTag {
-    let cf = if u(c, "console_flags") == 0 { h::ConsoleHeaderTagFlags::ConsoleRequired } else { h::ConsoleHeaderTagFlags::EgaTextSupported };
-    h::ConsoleHeaderTag::new(hflag(c), cf)
-}
-fn mk_address(c: &Value) -> h::AddressHeaderTag {
-    h::AddressHeaderTag::new(hflag(c), u(c, "header_addr") as u32, u(c, "load_addr") as u32, u(c, "load_end_addr") as u32, u(c, "bss_end_addr") as u32)
-}
-fn mk_hfb(c: &Value) -> h::FramebufferHeaderTag {
-    h::FramebufferHeaderTag::new(hflag(c), u(c, "width") as u32, u(c, "height") as u32, u(c, "depth") as u32)
 }
 
 /// runs a constructor with allocator tracking; describes the result (and its clone) and drops it
@@ -295,19 +147,7 @@ fn boxed<T: ?Sized + MaybeDynSized<Metadata = usize>>(c: &Value, f: impl FnOnce(
     out::ok(Value::Object(m))
 }
 
-fn sized<T: MaybeDynSized + Sized>(t: T, id_const: u64) -> Value {
-    let mut m = describe(&t);
-    m.insert("id_const".into(), out::le(id_const, 4));
-    m.insert("place".into(), placements(&t));
-    out::ok(Value::Object(m))
-}
 
-fn id_of<T: Tag<IDType = TagType> + ?Sized>() -> u64 {
-    u32::from(T::ID) as u64
-}
-fn hid_of<T: Tag<IDType = h::HeaderTagType> + ?Sized>() -> u64 {
-    T::ID as u16 as u64
-}
 
 pub fn dispatch(ctx: &mut Ctx, op: &str, call: &Value) -> Option<Value> {
     Some(match op {
@@ -442,29 +282,6 @@ fn construct(c: &Value) -> Value {
         "efi_mmap" => boxed(c, || mk_efi_mmap(c), id_of::<EFIMemoryMapTag>()),
         "custom" => boxed(c, || mk_custom(c), u(c, "typ")),
         "info_req" => boxed(c, || mk_info_req(c), hid_of::<h::InformationRequestHeaderTag>()),
-        "meminfo" => sized(mk_meminfo(c), id_of::<BasicMemoryInfoTag>()),
-        "bootdev" => sized(mk_bootdev(c), id_of::<BootdevTag>()),
-        "vbe" => sized(mk_vbe(c), id_of::<VBEInfoTag>()),
-        "apm" => sized(mk_apm(c), id_of::<ApmTag>()),
-        "efi32" => sized(EFISdt32Tag::new(u(c, "sdt_address") as u32), id_of::<EFISdt32Tag>()),
-        "efi64" => sized(EFISdt64Tag::new(u(c, "sdt_address")), id_of::<EFISdt64Tag>()),
-        "rsdpv1" => sized(mk_rsdpv1(c), id_of::<RsdpV1Tag>()),
-        "rsdpv2" => sized(mk_rsdpv2(c), id_of::<RsdpV2Tag>()),
-        "efi_bs" => sized(if c["default"].as_bool().unwrap_or(false) { EFIBootServicesNotExitedTag::default() } else { EFIBootServicesNotExitedTag::new() }, id_of::<EFIBootServicesNotExitedTag>()),
-        "efi32_ih" => sized(EFIImageHandle32Tag::new(u(c, "image_handle") as u32), id_of::<EFIImageHandle32Tag>()),
-        "efi64_ih" => sized(EFIImageHandle64Tag::new(u(c, "image_handle")), id_of::<EFIImageHandle64Tag>()),
-        "load_base_addr" => sized(ImageLoadPhysAddrTag::new(u(c, "load_base_addr") as u32), id_of::<ImageLoadPhysAddrTag>()),
-        "end" => sized(EndTag::default(), id_of::<EndTag>()),
-        "hend" => sized(if c["default"].as_bool().unwrap_or(false) { h::EndHeaderTag::default() } else { h::EndHeaderTag::new() }, hid_of::<h::EndHeaderTag>()),
-        "address" => sized(mk_address(c), hid_of::<h::AddressHeaderTag>()),
-        "entry" => sized(h::EntryAddressHeaderTag::new(hflag(c), u(c, "entry_addr") as u32), hid_of::<h::EntryAddressHeaderTag>()),
-        "entry_efi32" => sized(h::EntryEfi32HeaderTag::new(hflag(c), u(c, "entry_addr") as u32), hid_of::<h::EntryEfi32HeaderTag>()),
-        "entry_efi64" => sized(h::EntryEfi64HeaderTag::new(hflag(c), u(c, "entry_addr") as u32), hid_of::<h::EntryEfi64HeaderTag>()),
-        "console" => sized(mk_console(c), hid_of::<h::ConsoleHeaderTag>()),
-        "hfb" => sized(mk_hfb(c), hid_of::<h::FramebufferHeaderTag>()),
-        "module_align" => sized(h::ModuleAlignHeaderTag::new(hflag(c)), hid_of::<h::ModuleAlignHeaderTag>()),
-        "hefi_bs" => sized(h::EfiBootServiceHeaderTag::new(hflag(c)), hid_of::<h::EfiBootServiceHeaderTag>()),
-        "relocatable" => sized(mk_relocatable(c), hid_of::<h::RelocatableHeaderTag>()),
         _ => out::unsupported(),
     }
 }
@@ -477,6 +294,15 @@ fn new_boxed_op(c: &Value) -> Value {
     match out::arg_str(c, "h") {
         "tag" => boxed(c, || new_boxed::<DynSizedStructure<TagHeader>>(TagHeader::new(TagTypeId::new(typ), 0), &refs), typ as u64),
         "htag" => boxed(c, || new_boxed::<DynSizedStructure<h::HeaderTagHeader>>(h::HeaderTagHeader::new(h::HeaderTagType::InformationRequest, h::HeaderTagFlag::Required, 0), &refs), 1),
+        "h12" => boxed(c, || new_boxed::<DynSizedStructure<Hdr12>>(Hdr12::new(typ), &refs), typ as u64),
+        "h4" => boxed(c, || new_boxed::<DynSizedStructure<Hdr4>>(Hdr4::new(), &refs), 0),
+        "mb" => {
+            // an existing basic header (of a freshly built, tag-less header) finalised for different content
+            let arch = if typ == 0 { h::HeaderTagISA::I386 } else { h::HeaderTagISA::MIPS32 };
+            let base = h::Builder::new(arch).build();
+            let hdr = base.header().clone();
+            boxed(c, || new_boxed::<DynSizedStructure<h::Multiboot2BasicHeader>>(hdr, &refs), 0)
+        }
         "dummy" => boxed(c, || new_boxed::<DummyDstTag>(DummyTestHeader::new(typ, 0), &refs), typ as u64),
         _ => out::unsupported(),
     }
